@@ -244,7 +244,9 @@ class GeoBoxBase:
         assert self.crs is not None
         ext = self.extent
         if buffer != 0:
-            buffer = buffer * max(*self.resolution.xy)
+            # pixel size, not signed resolution: a mirrored GeoBox has a negative
+            # resolution on both axes, which used to turn the buffer into an erosion
+            buffer = buffer * max(abs(r) for r in self.resolution.xy)
             ext = ext.buffer(buffer)
 
         return ext.to_crs(crs, resolution=self._reproject_resolution(npoints)).dropna()
